@@ -46,8 +46,8 @@ def main():
     L.append("Seeded changes (each written by a sub-agent that saw only the property text and a scratch clone; kept only after "
              "`tools/seeded_confirm.sh` confirmed: applies, compiles, suite = baseline, its demo passes without and fails with the change):")
     L.append("")
-    L.append("| change | needs, in order to manifest | caught by `./check <id>` | how |")
-    L.append("|---|---|---|---|")
+    L.append("| change | needs, in order to manifest | caught by `./check <id>` | how | when first evaluated |")
+    L.append("|---|---|---|---|---|")
     for pid in sorted(seeded):
         for d, m in seeded[pid]:
             if m.get("status", "").startswith("obsolete"):
@@ -57,7 +57,9 @@ def main():
                 c = "yes" if m.get("detected_by_check") else "NO"
                 how = ("concrete failing input in the replay file" if m.get("concrete_failing_input") else
                        ("broken correspondence, no-failing-input-found" if m.get("detected_by_check") else "missed"))
-            L.append("| %s | %s | %s | %s |" % (d, m.get("needs_to_manifest", "").replace("|", "/"), c, how))
+            first = m.get("detected_before_strengthening")
+            firsts = "-" if first is None else ("caught" if first else "missed; added: " + m.get("strengthening", ""))
+            L.append("| %s | %s | %s | %s | %s |" % (d, m.get("needs_to_manifest", "").replace("|", "/"), c, how, firsts.replace("|", "/")))
     block = "\n".join(L)
     p = os.path.join(HERE, "DESIGN.md")
     s = open(p).read()
